@@ -68,7 +68,7 @@ theorem recover_readAt (hash : Key → Nat) (cfg : Store.Cfg) (b : Bucket) (cut 
 theorem recover_tree (hash : Key → Nat) (cfg : Store.Cfg) (b : Bucket) (cut : Nat → Nat) (present : Nat → Bool) :
     (b.recover hash cfg cut present).tree = replayTree hash (b.crashAt cut present).log := rfl
 
-theorem lastOf_mem (k : Key) (l : List (Pos × Rec)) (x : Pos × Rec) (h : lastOf k l = some x) : x ∈ l ∧ x.2.key = k := by
+theorem lastOf_mem_at (k : Key) (l : List (Pos × Rec)) (x : Pos × Rec) (h : lastOf k l = some x) : x ∈ l ∧ x.2.key = k := by
   unfold lastOf at h
   have := List.mem_of_getLast? h
   simp only [List.mem_filter, decide_eq_true_eq] at this
@@ -90,7 +90,7 @@ theorem recover_get (hash : Key → Nat) (K : Key → Prop) (hInj : InjOn hash K
   | none => simp [itemOfLast]
   | some x =>
     obtain ⟨p, r⟩ := x
-    obtain ⟨hmem, hkey⟩ := lastOf_mem k _ _ hl
+    obtain ⟨hmem, hkey⟩ := lastOf_mem_at k _ _ hl
     have hm := List.mem_filter.mp hmem
     by_cases hv : r.ver > 0
     · have hread : (b.recover hash cfg cut present).readAt p = some r := by
